@@ -982,7 +982,10 @@ func callBuiltin(caller *frame, callpos token.Pos, fn *ssa.Builtin, args []value
 			}
 			return arg0
 		}
-		if _, ok := args[1].(symStr); ok {
+		if st, ok := args[1].(symStr); ok {
+			if st.kind == "int" {
+				return append(args[0].([]value), opaqueRun{"intstr", st.t})
+			}
 			panic(unsupported("append([]byte, opaque string...)"))
 		}
 		// append([]T, ...[]T) []T
@@ -1194,6 +1197,13 @@ func conv(i *interpreter, t_dst, t_src types.Type, x value) value {
 	if isSymOrStr(x) {
 		if b, ok := t_dst.Underlying().(*types.Basic); ok {
 			return i.symConv(b, x)
+		}
+		if st, ok := x.(symStr); ok {
+			if sl, isSlice := t_dst.Underlying().(*types.Slice); isSlice {
+				if bt, isB := sl.Elem().Underlying().(*types.Basic); isB && bt.Kind() == types.Uint8 && st.kind == "int" {
+					return []value{opaqueRun{"intstr", st.t}}
+				}
+			}
 		}
 		panic(unsupported(fmt.Sprintf("conversion of symbolic %T to %s", x, t_dst)))
 	}
